@@ -1,11 +1,97 @@
 import ProbLogModel.Sem
+import ProbLogProofs.Lemmas.SemRules
+import ProbLogProofs.Lemmas.SemRun
+import ProbLogProofs.Lemmas.SemIrrelevant
 /-!
-# C08 — property theorems only (specification-level statements; see harness/props/c08.py for the tie to the code)
+# C08 — a query's answer does not depend on what else is asked (specification level)
 -/
 namespace ProbLogProofs.C08
-open ProbLogModel.Sem
+open ProbLogModel.Sem ProbLogProofs.SemRules ProbLogProofs.SemRun
 
-/-- The specification's result for the empty choice space: a single world of weight 1 (first obligation). -/
-theorem C08_spec_base : (worlds []).map (·.weight) = [1] := rfl
+/-- `run` is a plain sum over total choices: `z`, every numerator and the counters are explicit sums over
+    `worlds (restrict P roots).groups` (definitions `zOf`, `numOf`, `undefOf` in `Lemmas/SemRun.lean`); in
+    particular the numerator list is computed pointwise from the query list. -/
+theorem C08_run_eq_sums (P : Prog) (queries : List Nat) (evidence : List (Nat × Bool)) :
+    run P queries evidence =
+      ⟨zOf P (queries ++ evidence.map (·.1)) evidence,
+       queries.map (numOf P (queries ++ evidence.map (·.1)) evidence),
+       undefOf P (queries ++ evidence.map (·.1)),
+       (worlds (restrict P (queries ++ evidence.map (·.1))).groups).length⟩ :=
+  run_eq_sums P queries evidence
+
+/-- Given the same *set* of roots (queries ∪ evidence atoms), the evidence probability and the counters are the same
+    and the numerator reported for a query only depends on that query — not on its position, on the order of the
+    query list, or on duplicates. -/
+theorem C08_queries_pointwise (P : Prog) (qs qs' : List Nat) (evidence : List (Nat × Bool))
+    (hroots : ∀ a, a ∈ qs ++ evidence.map (·.1) ↔ a ∈ qs' ++ evidence.map (·.1)) :
+    (run P qs evidence).z = (run P qs' evidence).z ∧
+    (run P qs evidence).undefWorlds = (run P qs' evidence).undefWorlds ∧
+    (run P qs evidence).nworlds = (run P qs' evidence).nworlds ∧
+    ∀ (i j : Nat) (hi : i < qs.length) (hj : j < qs'.length), qs[i] = qs'[j] →
+      (run P qs evidence).num[i]? = (run P qs' evidence).num[j]? := by
+  obtain ⟨h1, h2, h3, h4⟩ := roots_congr P hroots evidence
+  rw [run_eq_sums, run_eq_sums]
+  refine ⟨h1, h3, by simp only [h4], ?_⟩
+  intro i j hi hj hq
+  simp only [List.getElem?_map, List.getElem?_eq_getElem hi, List.getElem?_eq_getElem hj, Option.map_some, hq, h2]
+
+/-- **Adding queries does not change the old answers.** If `qs2` contains every query of `qs` (any order, any
+    additional queries) and no total choice of non-zero weight of the larger problem has an undefined relevant atom,
+    then the evidence probability is the same and every old query gets the same numerator: the choices that are
+    relevant only for the additional queries marginalise out. No assumption on the probabilities (they need not be
+    in `[0,1]`), on well-formedness, or on the program being stratified beyond `undefWorlds = 0`.
+    (Without that hypothesis the statement is false by design of `run`: worlds in which an atom relevant only to
+    an *added* query is undefined are dropped from `z`.) -/
+theorem C08_restrict_irrelevant (P : Prog) (qs qs2 : List Nat) (evidence : List (Nat × Bool))
+    (hsub : ∀ q ∈ qs, q ∈ qs2) (H : (run P qs2 evidence).undefWorlds = 0) :
+    (run P qs2 evidence).z = (run P qs evidence).z ∧
+    (∀ (i j : Nat) (hi : i < qs.length) (hj : j < qs2.length), qs[i] = qs2[j] →
+      (run P qs2 evidence).num[j]? = (run P qs evidence).num[i]?) ∧
+    (run P qs evidence).undefWorlds = 0 := by
+  have hs : ∀ a ∈ qs ++ evidence.map (·.1), a ∈ qs2 ++ evidence.map (·.1) := by
+    intro a ha
+    rcases List.mem_append.1 ha with h | h
+    · exact List.mem_append_left _ (hsub a h)
+    · exact List.mem_append_right _ h
+  have hev : ∀ e ∈ evidence, e.1 ∈ qs ++ evidence.map (·.1) :=
+    fun e he => List.mem_append_right _ (List.mem_map.2 ⟨e, he, rfl⟩)
+  rw [run_eq_sums] at H
+  obtain ⟨hz, hn⟩ := SemIrrelevant.irrelevant P hs evidence hev H
+  have hu := SemIrrelevant.undefOf_small P hs H
+  rw [run_eq_sums, run_eq_sums]
+  refine ⟨hz, ?_, hu⟩
+  intro i j hi hj hq
+  simp only [List.getElem?_map, List.getElem?_eq_getElem hi, List.getElem?_eq_getElem hj, Option.map_some]
+  rw [← hq, hn qs[i] (List.mem_append_left _ (List.getElem_mem hi))]
+
+/-- **A query's answer is the answer it gets when asked alone** (same evidence): corollary with `qs = [q]`. -/
+theorem C08_query_independent (P : Prog) (qs : List Nat) (evidence : List (Nat × Bool))
+    (H : (run P qs evidence).undefWorlds = 0) (j : Nat) (hj : j < qs.length) :
+    (run P qs evidence).z = (run P [qs[j]] evidence).z ∧
+    (run P qs evidence).num[j]? = (run P [qs[j]] evidence).num[0]? := by
+  obtain ⟨hz, hn, _⟩ := C08_restrict_irrelevant P [qs[j]] qs evidence
+    (by intro q hq; rw [List.mem_singleton.1 hq]; exact List.getElem_mem hj) H
+  exact ⟨hz, hn 0 j (by simp) hj rfl⟩
+
+/-- The hypothesis `undefWorlds = 0` of `C08_restrict_irrelevant` cannot be dropped: with `a0. a1 :- \\+a1.` the
+    query `a0` alone has `z = 1`, numerator 1; asked together with `a1` the only world is discarded (`a1` undefined). -/
+theorem C08_restrict_irrelevant_needs_two_valued :
+    let P : Prog := ⟨2, 0, [⟨0, [], [], none⟩, ⟨1, [], [1], none⟩], []⟩
+    (run P [0] []).z = 1 ∧ (run P [0] []).num = [1] ∧
+    (run P [0, 1] []).z = 0 ∧ (run P [0, 1] []).num = [0, 0] ∧ (run P [0, 1] []).undefWorlds = 1 := by
+  decide +kernel
+
+-- non-vacuity: `0.3::c0. 0.6::c1. a0 :- c0. a1 :- a0, \+a2. a2 :- c1. a1 :- a2, a0.`, evidence a0
+def exProg : Prog :=
+  ⟨3, 2, [⟨0, [], [], some 0⟩, ⟨1, [0], [2], none⟩, ⟨2, [], [], some 1⟩, ⟨1, [2, 0], [], none⟩],
+    [⟨[(3/10, 0)]⟩, ⟨[(3/5, 1)]⟩]⟩
+example : ∀ a, a ∈ [1, 2] ++ [((0 : Nat), true)].map (·.1) ↔ a ∈ [2, 2, 1] ++ [((0 : Nat), true)].map (·.1) := by
+  simp; omega
+example : (run exProg [1, 2] [(0, true)]).num = [3/10, 9/50] ∧
+    (run exProg [2, 2, 1] [(0, true)]).num = [9/50, 9/50, 3/10] := by decide +kernel
+
+example : (run exProg [1, 2] [(0, true)]).undefWorlds = 0 ∧ (run exProg [1, 2] [(0, true)]).nworlds = 4 ∧
+    (run exProg [] [(0, true)]).nworlds = 2 ∧ (run exProg [] [(0, true)]).z = 3/10 ∧
+    (run exProg [1, 2] [(0, true)]).z = 3/10 := by decide +kernel
 
 end ProbLogProofs.C08
